@@ -166,6 +166,26 @@ def interface_names(k: int, A: str, B: str, C: str, rl: bool, rg: bool, hl: bool
     return added_global_problems(rep, rep.an1, rg) == []
 
 
+def interface_names_ann(k: int, A: str, B: str, C: str, rl: bool, rg: bool) -> bool:
+    """
+    pre: 0 <= k < len(skeletons.ANN_TEMPLATES)
+    post: _
+    """
+    # the same interface rule when annotation removal (including class attributes) rewrites the statements first
+    from python_minifier.transforms.remove_annotations_options import RemoveAnnotationsOptions
+    tree, an0 = _prepare(skeletons.ANN_TEMPLATES, k, A, B, C)
+    if an0.errors:
+        return True
+    snap = renamecheck.Snapshot(tree)
+    opts = RemoveAnnotationsOptions(remove_variable_annotations=True, remove_return_annotations=True, remove_argument_annotations=True,
+                                    remove_class_attribute_annotations=True)
+    out = renamecheck.run_pipeline(tree, rl, rg, True, extra={'remove_annotations': opts})
+    if interface_problems(an0, snap, out, rg):
+        return False
+    rep = renamecheck.evaluate(an0, snap, out, allow_removed=True)
+    return rep.problems == []
+
+
 # ---------------------------------------------------------------------------------------------------------------
 # C09: dynamic name access freezes every name
 def is_tainted(tree, an0):
